@@ -259,6 +259,10 @@ class RulesRun(object):
         text = render.prophy_text(plan["schema"])
         twin_mode = plan.get("twin", 0)
         across = ACROSS.get(rule)
+        if across and plan["pick"] % 2:
+            # the same definition text in both included files: still two definitions of one name (C12_h: a guard that
+            # compares the nodes for equality instead of identity lets exactly this through)
+            across = (across[0], across[0])
         if rule in VALID_EXTRA or rule == "valid-definition-free":
             return self.run_valid_variant(rule, text)
         if across:
